@@ -134,8 +134,8 @@ macro_rules! c16_sample_body {
             cov!(src, r >= 1.0 - eps, "uniform variate at the top of its range");
             cov!(src, k == LEN - 1, "last category sampled");
             cov!(src, k == 0, "first category sampled");
-            cov!(src, p[0] == 0.0, "first probability zero");
-            cov!(src, p[LEN - 1] == 0.0, "last probability zero");
+            cov!(src, LEN == 1 || p[0] == 0.0, "first probability zero (len > 1)");
+            cov!(src, LEN == 1 || p[LEN - 1] == 0.0, "last probability zero (len > 1)");
             cov!(src, true, "end reached");
         }
     };
